@@ -3,6 +3,7 @@
 mod explore;
 mod isolate;
 mod props;
+mod refval;
 mod report;
 mod util;
 
